@@ -306,7 +306,7 @@ class NsMachine(RuleBasedStateMachine):
         if att:
             self.step(("detach", data.draw(st.sampled_from(att))))
 
-    @rule(x=st.integers(0, 59), k=st.sampled_from(["p", "q", "r", "xml", "eml"]), u=st.sampled_from(["U1", "U2", "U3"]))
+    @rule(x=st.integers(0, 59), k=st.sampled_from(["p", "q", "r", "xml", "eml"]), u=st.sampled_from(["U1", "U2", "U3", ""]))
     def declare(self, x, k, u):
         self.step(("declare", x % self.n, k, u) + (("id",) if (x // 10) % 3 == 0 else ()))
 
@@ -378,13 +378,13 @@ def attach_case(draw):
     ops = []
     for g in range(2, n):
         for _ in range(pre.int(1, 2)):
-            ops.append(("declare", g, pre.pick(PFX), pre.pick(["U1", "U2", "U3"])) + (("id",) if pre.chance(3) else ()))
+            ops.append(("declare", g, pre.pick(PFX), pre.pick(["U1", "U2", "U3", ""])) + (("id",) if pre.chance(3) else ()))
     for g in range(2, 2 + k):
         ops.append(("attach", 1, g))
     for g in range(2 + k, n):
         ops.append(("attach", pre.int(2, 1 + k), g))
     for _ in range(pre.int(0, 2)):
-        ops.append(("declare", 1, pre.pick(PFX), pre.pick(["U1", "U2", "U3"])))
+        ops.append(("declare", 1, pre.pick(PFX), pre.pick(["U1", "U2", "U3", ""])))
     if pre.bool():
         ops = list(ops)
         for a_ in range(len(ops) - 1):
@@ -392,7 +392,7 @@ def attach_case(draw):
             ops[a_], ops[b_] = ops[b_], ops[a_]
     start, step = pre.int(0, 4), pre.pick([1, 2, 3, 4])
     for pf in [PFX[(start + j * step) % 5] for j in range(pre.int(2, 4))]:      # 2-4 distinct prefixes
-        ops.append(("declare", 0, pf, pre.pick(["U1", "U2", "U3"])) + (("id",) if pre.chance(3) else ()))
+        ops.append(("declare", 0, pf, pre.pick(["U1", "U2", "U3", ""])) + (("id",) if pre.chance(3) else ()))
     ops.append(("attach", 0, 1))
     if pre.bool():
         ops.append(("declare", pre.int(0, n - 1), pre.pick(PFX), "U4"))
